@@ -536,3 +536,9 @@ K("C17.K.dyn.de_leaf.floats", DD, "verif_dynde::leaf_floats", {"C17": "D"}, fns=
   note="every byte string <= 9: dynamic float decode == static decode for finite values, rejection only for non-finite / truncated", **DYN)
 K("C18.K.dyn.ser_total.string_json", DS, "verif_dynser::total_string_json", {"C18": "D"}, label="bounded(5 strings: empty, ASCII, 2-byte, two chars, 4-byte scalar)",
   fns=["postcard_dyn::ser::ser_named_type (Char, String and scalar arms on string JSON)"], note="string JSON against Char / String / numeric kinds: result or error, never a panic", **DYN)
+
+for m in ["crc", "cobs"]:
+    K("C20.K.extend_equals_pushes_" + m, C20M, "verif_c20::extend_equals_pushes_" + m, {"C20": "D", "C10": "S", "C06": "S"}, needs=(REF, PROBES), label="bounded(block<=72, fixed byte pattern)",
+      tier="quick" if m == "crc" else "thorough",
+      fns=["postcard::ser::flavors::Flavor::try_extend (default or override) of " + ("crc::CrcModifier" if m == "crc" else "Cobs")],
+      note="modifier flavour: ONE try_extend(block) == byte-wise try_push of the block, output and checksum/frame identical; CRC: concrete block lengths 0, 1, 9, 17, 33, 65, 72 (just past every power-of-two chunk size), Cobs: every length 0..=72")
